@@ -8,7 +8,10 @@ BINDINGS = "p=urn:u1;q=urn:u2"
 # tests and nothing else); every check that varies the configuration draws from these
 # ... and may take a binding out again (`!p`, `!`): what was bound before must leave no trace
 BINDING_VARIANTS = [BINDINGS, BINDINGS, "=urn:u1;p=urn:u1;q=urn:u2", "=urn:u2;p=urn:u1;q=urn:u2", "p=urn:u1;q=urn:u2;=urn:u1",
-                    "=urn:u2;p=urn:u2;!;!p;p=urn:u1;q=urn:u2", "p=urn:u1;q=urn:u2;z=urn:u1;!z"]
+                    "=urn:u2;p=urn:u2;!;!p;p=urn:u1;q=urn:u2", "p=urn:u1;q=urn:u2;z=urn:u1;!z",
+                    # ... or bind a prefix (or the default) AGAIN without taking it out first: the later binding replaces the
+                    # earlier one for every kind of name test (round-6 seed C05-H: QName tests kept the oldest binding)
+                    "p=urn:u2;q=urn:u1;p=urn:u1;q=urn:u2", "=urn:u2;p=urn:u9;=urn:u1;p=urn:u1;q=urn:u2"]
 
 
 def strip_impl(field):
